@@ -162,6 +162,8 @@ def auto_discharge(P, s):
             return 'DC-CONST', 'non-zero constant divisor'
         for cond, lab, gb, gt in _dominating_guards(f, s['block']):
             c = cond
+            if c[0] == 'call' and c[1].endswith('::is_power_of_two') and lab is True and _same(c[2][0], d) and _no_redef_between(f, d, gb, s['block'], gt):
+                return 'DC-GUARD', 'divisor tested to be a power of two (hence non-zero) by a dominating branch'
             if c[0] == 'bin' and c[1] in ('Ne', 'Eq') and c[3] == ('int', 0, 'usize') and _same(c[2], d):
                 if (c[1] == 'Ne') == (lab is True) and _no_redef_between(f, d, gb, s['block'], gt):
                     return 'DC-GUARD', 'divisor tested non-zero by a dominating branch'
@@ -357,6 +359,29 @@ def supporting_fact(ctx, name):
         if not obs:
             return False, 'supporting obligation %s was not evaluated' % tag
         return all(o.ok for o in obs), 'supporting obligation %s: %s' % (tag, ['ok' if o.ok else 'FAILED' for o in obs])
+    if name == 'alignments-nonzero':
+        # every source of an alignment value is validated to be a power of two: the effective alignment of a type (G15),
+        # extern types' align attribute, and the pointer size (before any type is built); built-ins are max(size, 1)
+        g15 = [o for o in ctx.obs if o.key.endswith('G15|alignment-power-of-two')]
+        ok15 = bool(g15) and all(o.ok for o in g15)
+        am = [f for f in P.fns.values() if f.id.endswith('SemanticState::add_module')]
+        okx = False
+        if am:
+            from guards import guards_of
+            for g_ in guards_of(am[0]):
+                if g_.kind == 'reject' and any(isinstance(x, tuple) and x[0] == 'call' and x[1].endswith('::is_power_of_two') for x in walk(g_.pred)):
+                    okx = True
+        sb = [f for f in P.fns.values() if f.id.endswith('SemanticState::build')]
+        okp = False
+        if sb:
+            from guards import guards_of, covers_all_paths
+            for g_ in guards_of(sb[0]):
+                if g_.kind == 'reject' and any(isinstance(x, tuple) and x[0] == 'call' and x[1].endswith('::is_power_of_two') and any(
+                        isinstance(y, tuple) and y[0] == 'call' and y[1].endswith('pointer_size') for y in walk(x)) for x in walk(g_.pred)):
+                    okp = covers_all_paths(sb[0], g_)
+        fo = [o for o in ctx.obs if o.key.endswith('builtins|alignment-formula')]
+        okb = (not fo) or all(o.ok for o in fo)
+        return ok15 and okx and okp and okb, 'effective alignment validated: %s; extern align validated: %s; pointer size validated before resolution: %s; built-in formula max(size,1): %s' % (ok15, okx, okp, okb)
     if name == 'rem-decreases':
         g = P.fns.get('util::gcd')
         if not g:
